@@ -39,3 +39,13 @@ Theorem C04_resolve_total : forall D mx cs,
   oids_ok cs -> Forall (cit_wf D) cs -> exists r, resolve D mx cs = Ok r.
 Proof. exact resolve_total. Qed.
 Print Assumptions C04_resolve_total.
+
+(* ---- the closed model (text and year in, citations out; Model/E2EClosed.v): extraction never raises, for EVERY
+   text -- no premise at all.  The only fact about the regex searches totality needs is "the short-form antecedent
+   is always captured", proved for the engine on the regenerated AST ---- *)
+From EV Require Import Model.Extract Model.E2E Model.RefEngine Model.E2EClosed Proofs.ClosedTotal.
+
+Theorem C04_closed_total : forall this_year s ra, exists l, get_citations_closed this_year s ra = Ok l.
+Proof. exact closed_total. Qed.
+Print Assumptions C04_closed_total.
+
